@@ -281,29 +281,38 @@ func (lm *levelManager) flushToL0(kvs []types.Entry) error {
 	lm.levels[0].PushBack(th)
 
 	// file name format: level-idx.db
-	fd, err := os.OpenFile(lm.fileName(0, th.levelIdx), os.O_CREATE|os.O_RDWR|os.O_TRUNC, 0600)
+	return lm.writeTable(0, th.levelIdx, tableBytes)
+}
+
+// writeTable writes a table under a temporary name, syncs it and only then renames it to
+// its final name, so that a file called <level>-<idx>.db is always complete: recovery
+// parses every *.db file and cannot tell a half-written one from a valid one.
+func (lm *levelManager) writeTable(level, idx int, tableBytes []byte) error {
+	name := lm.fileName(level, idx)
+	tmp := name + ".tmp"
+
+	fd, err := os.OpenFile(tmp, os.O_CREATE|os.O_RDWR|os.O_TRUNC, 0600)
 	if err != nil {
 		return err
 	}
-	defer func() {
-		if err = fd.Close(); err != nil {
-			lm.logger.Errorf("failed to close file: %v", err)
-		}
-	}()
 
 	// write sstable
-	_, err = fd.Write(tableBytes)
-	if err != nil {
+	if _, err = fd.Write(tableBytes); err != nil {
+		_ = fd.Close()
 		return err
 	}
 
 	// os sync
 	if err = fd.Sync(); err != nil {
-		lm.logger.Errorf("failed to sync file: %v", err)
+		_ = fd.Close()
 		return err
 	}
 
-	return nil
+	if err = fd.Close(); err != nil {
+		return err
+	}
+
+	return os.Rename(tmp, name)
 }
 
 func (lm *levelManager) checkAndCompact() {
@@ -432,23 +441,8 @@ func (lm *levelManager) compactL0() {
 
 	// write and sync the new sstable before any input is deleted: until then the inputs
 	// are the only durable copy of the data
-	fd, err := os.OpenFile(lm.fileName(1, th.levelIdx), os.O_CREATE|os.O_RDWR|os.O_TRUNC, 0600)
-	if err != nil {
-		lm.logger.Panicf("failed to open sstable: %v", err)
-	}
-	defer func() {
-		if err = fd.Close(); err != nil {
-			lm.logger.Errorf("failed to close file: %v", err)
-		}
-	}()
-
-	_, err = fd.Write(tableBytes)
-	if err != nil {
+	if err := lm.writeTable(1, th.levelIdx, tableBytes); err != nil {
 		lm.logger.Panicf("failed to write sstable: %v", err)
-	}
-
-	if err = fd.Sync(); err != nil {
-		lm.logger.Panicf("failed to sync sstable: %v", err)
 	}
 
 	// delete old sstables from L0
@@ -521,23 +515,8 @@ func (lm *levelManager) compactLN(n int) {
 	}
 
 	// write and sync the new sstable before any input is deleted
-	fd, err := os.OpenFile(lm.fileName(n+1, th.levelIdx), os.O_CREATE|os.O_RDWR|os.O_TRUNC, 0600)
-	if err != nil {
-		lm.logger.Panicf("failed to open sstable: %v", err)
-	}
-	defer func() {
-		if err = fd.Close(); err != nil {
-			lm.logger.Errorf("failed to close file: %v", err)
-		}
-	}()
-
-	_, err = fd.Write(tableBytes)
-	if err != nil {
+	if err := lm.writeTable(n+1, th.levelIdx, tableBytes); err != nil {
 		lm.logger.Panicf("failed to write sstable: %v", err)
-	}
-
-	if err = fd.Sync(); err != nil {
-		lm.logger.Panicf("failed to sync sstable: %v", err)
 	}
 
 	// delete old sstables from LN
